@@ -227,6 +227,14 @@ func runC18(t *sim.T, tier string) *sim.Violation {
 			}
 			progs[i] = append(progs[i], op)
 			fmt.Fprintf(&progSig, "%d:%d:%d:%d;", i, op.kind, op.input, op.opts)
+			switch {
+			case op.kind == 1:
+				t.Logf("task %d step %d: ParseStatic(shared archive %d, inherit=%v), then Root() of every stop", i, k, op.input, op.inherit)
+			case op.opts >= 0:
+				t.Logf("task %d step %d: ParseRealtime(shared message %d, shared options #%d), then Hash of every trip and vehicle", i, k, op.input, op.opts)
+			default:
+				t.Logf("task %d step %d: ParseRealtime(shared message %d, private options %s), then Hash of every trip and vehicle", i, k, op.input, op.priv)
+			}
 		}
 	}
 	sharedOpts, sharedExt, sharedIn := false, false, false
